@@ -19,6 +19,7 @@ bitflags! {
 }
 
 impl SlotAttributes {
+    #[cfg_attr(kani, kani::ensures(|r| *r == verif_kani::s_accessor(self.bits())))]
     pub(crate) const fn is_accessor_descriptor(self) -> bool {
         self.contains(Self::GET) || self.contains(Self::SET)
     }
@@ -37,11 +38,13 @@ impl SlotAttributes {
     }
 
     /// Get the width of the slot.
+    #[cfg_attr(kani, kani::ensures(|r| *r == verif_kani::s_width(self.bits())))]
     pub(crate) fn width(self) -> u32 {
         // accessor take 2 positions in the storage to accommodate for the `get` and `set` fields.
         1 + u32::from(self.is_accessor_descriptor())
     }
 
+    #[cfg_attr(kani, kani::ensures(|r| *r == verif_kani::s_cacheable(self.bits())))]
     pub(crate) const fn is_cacheable(self) -> bool {
         !self.contains(Self::NOT_CACHEABLE) && self.contains(Self::FOUND)
     }
@@ -70,6 +73,7 @@ impl Slot {
         }
     }
 
+    #[cfg_attr(kani, kani::ensures(|r| *r == verif_kani::s_cacheable(self.attributes.bits())))]
     pub(crate) const fn is_cacheable(self) -> bool {
         self.attributes.is_cacheable()
     }
@@ -80,6 +84,7 @@ impl Slot {
     }
 
     /// Get the width of the slot.
+    #[cfg_attr(kani, kani::ensures(|r| *r == verif_kani::s_width(self.attributes.bits())))]
     pub(crate) fn width(self) -> u32 {
         self.attributes.width()
     }
@@ -87,6 +92,8 @@ impl Slot {
     /// Calculate next slot from previous one.
     ///
     /// This is needed because slots do not have the same width.
+    #[cfg_attr(kani, kani::requires(previous_slot.is_none_or(|p| p.index <= u32::MAX - 2)))]
+    #[cfg_attr(kani, kani::ensures(|r| verif_kani::post_from_previous(previous_slot, new_attributes, *r)))]
     pub(crate) fn from_previous(
         previous_slot: Option<Self>,
         new_attributes: SlotAttributes,
@@ -105,6 +112,8 @@ impl Slot {
         }
     }
 
+    #[cfg_attr(kani, kani::modifies(self))]
+    #[cfg_attr(kani, kani::ensures(|_| verif_kani::post_set_not_cacheable(old(*self), *self)))]
     pub(crate) fn set_not_cacheable_if_already_prototype(&mut self) {
         // NOTE(HalidOdat): This is a bit of a hack to avoid conditional branches.
         //
@@ -118,3 +127,7 @@ impl Slot {
         );
     }
 }
+
+#[cfg(kani)]
+#[path = "/verif/kani/engine/slot.rs"]
+mod verif_kani;
